@@ -1,15 +1,118 @@
 (* C11 -- separate-process mode contains every way a test can die.
-   Only statements; every proof is `exact <lemma>` into C11_Words.v / C11_Proofs.v. *)
+   Only statements; every proof is `exact <lemma>` into C11_Words.v / C11_Proofs.v / C11_Loop.v / C11_Compose.v. *)
 From Coq Require Import NArith ZArith List Bool Arith.
-From CppUVerif Require Import gen.Gen_C11 C11_Model C11_Words C11_Proofs.
+From CppUVerif Require Import gen.Gen_C11 C11_Model C11_Words C11_Proofs C11_Loop C11_Compose.
 Import ListNotations.
 Local Open Scope N_scope.
 
-(* all 65536 status words (a genuinely finite domain, swept by vm_compute): exited / signaled / stopped are mutually
-   exclusive, no class exactly for low byte 0xff, and the decoded fields are the ones the layout names *)
+(* all 65536 status words (a genuinely finite domain, swept by vm_compute and lifted with forallb_forall): exited /
+   signaled / stopped are mutually exclusive, no class exactly for low byte 0xff, the decoded fields are the ones the
+   layout names *)
 Theorem C11_status_partition : forall w, w < 65536 -> word_partition_ok w = true.
 Proof. exact word_partition. Qed.
 Print Assumptions C11_status_partition.
+
+(* ... and for every int whatsoever the macros read the low 16 bits only *)
+Theorem C11_status_high_bits_ignored : forall w,
+  decode w = decode (w mod 65536) /\ set_failure_by_status w = set_failure_by_status (w mod 65536).
+Proof. exact status_high_bits_ignored. Qed.
+Print Assumptions C11_status_high_bits_ignored.
+
+(* decoding inverts the kernel's packing: every exit code 0..255, every signal 1..126 with or without core flag, every stop signal *)
+Theorem C11_decode_inverts_encode : forall e, ev_ok e = true -> decode (encode e) = class_of_ev e.
+Proof. exact decode_encode. Qed.
+Print Assumptions C11_decode_inverts_encode.
+
+(* for EVERY infinite oracle stream f of waitpid outcomes: as soon as f n ends a wait (error, exited or signaled status) or
+   the first n+1 outcomes hold more than `tolerated` EINTRs, the loop stops within n+1 calls and nothing after matters *)
+Theorem C11_loop_terminates : forall (f : nat -> wout) n,
+  ends_loop (f n) = true \/ (tolerated < count_eintr (prefix f (S n)))%nat ->
+  forall m, (n < m)%nat ->
+  lr_end (parent_loop 0 (prefix f m)) <> EndStreamOut /\
+  (lr_calls (parent_loop 0 (prefix f m)) <= S n)%nat /\
+  parent_loop 0 (prefix f m) = parent_loop 0 (prefix f (S n)).
+Proof. exact loop_terminates_stream. Qed.
+Print Assumptions C11_loop_terminates.
+
+(* interrupted waits are retried a bounded number of times: whatever the stream, at most tolerated+1 EINTRs are consumed *)
+Theorem C11_eintr_retries_bounded : forall ws,
+  (count_eintr (firstn (lr_calls (parent_loop 0 ws)) ws) <= S tolerated)%nat.
+Proof. exact eintr_retries_bounded. Qed.
+Print Assumptions C11_eintr_retries_bounded.
+
+(* the oracle list running out (the only way the model's loop does not end by itself) means: nothing in it ends a wait
+   and its EINTRs fit the budget -- i.e. the child is still running *)
+Theorem C11_loop_only_waits_for_a_live_child : forall ws, lr_end (parent_loop 0 ws) = EndStreamOut ->
+  forallb (fun o => negb (ends_loop o)) ws = true /\ (count_eintr ws <= tolerated)%nat /\ lr_calls (parent_loop 0 ws) = length ws.
+Proof. exact loop_only_waits_for_a_live_child. Qed.
+Print Assumptions C11_loop_only_waits_for_a_live_child.
+
+(* once per event, in order: the failures recorded are exactly one FStopped per stop seen, FKilled sig / FExit / FWait for
+   the outcome that ended the wait (nothing for exit status 0), plus FEintr when the retries ran out; one SIGCONT per stop *)
+Theorem C11_failures_exact : forall ws, forallb sout_ok ws = true ->
+  lr_fails (parent_loop 0 (map conc ws)) =
+    flat_map fail_of (seen 0 ws) ++ (match lr_end (parent_loop 0 (map conc ws)) with EndGaveUp => [FEintr] | _ => [] end) /\
+  lr_conts (parent_loop 0 (map conc ws)) = length (filter is_stop (seen 0 ws)).
+Proof. exact (fun ws => fails_exact ws 0). Qed.
+Print Assumptions C11_failures_exact.
+
+Theorem C11_failure_count : forall ws, forallb sout_ok ws = true ->
+  length (lr_fails (parent_loop 0 (map conc ws))) =
+  (length (filter is_stop (seen 0 ws)) + length (filter bad_end (seen 0 ws)) +
+   match lr_end (parent_loop 0 (map conc ws)) with EndGaveUp => 1 | _ => 0 end)%nat.
+Proof. exact (fun ws => failure_count ws 0). Qed.
+Print Assumptions C11_failure_count.
+
+(* no failure <=> forked, and the parent saw only tolerated EINTRs / continue notices and then exit status 0 (no stop) *)
+Theorem C11_no_failure_iff : forall ws, forallb sout_ok ws = true ->
+  lr_end (parent_loop 0 (map conc ws)) <> EndStreamOut ->
+  (lr_fails (parent_loop 0 (map conc ws)) = [] <-> exists pre, seen 0 ws = pre ++ [SEv (EvExit 0)] /\ Forall quiet pre).
+Proof. exact (fun ws => no_failure_iff ws 0). Qed.
+Print Assumptions C11_no_failure_iff.
+
+(* a stream with at most `tolerated` EINTRs gives the failures, SIGCONTs and ending of the same stream without them *)
+Theorem C11_eintr_transparent : forall ws, (count_eintr ws <= tolerated)%nat ->
+  let a := parent_loop 0 ws in let b := parent_loop 0 (filter not_eintr ws) in
+  lr_fails a = lr_fails b /\ lr_conts a = lr_conts b /\ lr_end a = lr_end b.
+Proof. exact eintr_transparent_0. Qed.
+Print Assumptions C11_eintr_transparent.
+
+(* the record of a death by signal carries the signal's number, and so does the text (read back by the canonicaliser) *)
+Theorem C11_signal_named : forall s c, (1 <=? s) && (s <=? 126) = true ->
+  set_failure_by_status (encode (EvKill s c)) = [FKilled s] /\ categorise (render (FKilled s)) = FKilled s.
+Proof. exact signal_named. Qed.
+Print Assumptions C11_signal_named.
+
+(* the six texts found in the source today are told apart by the harness' canonicaliser *)
+Theorem C11_texts_classified :
+  categorise (render FExit) = FExit /\ categorise (render FStopped) = FStopped /\ categorise (render FFork) = FFork /\
+  categorise (render FEintr) = FEintr /\ categorise (render FWait) = FWait /\ categorise (render FCheck) = FCheck.
+Proof. exact texts_classified. Qed.
+Print Assumptions C11_texts_classified.
+
+(* a real child's verdict, hence its test's record, does not depend on the failures the parent had before the fork *)
+Theorem C11_child_verdict_independent : forall all_sep c1 c2 t, run_test all_sep c1 t = run_test all_sep c2 t.
+Proof. exact run_test_count. Qed.
+Print Assumptions C11_child_verdict_independent.
+
+(* the parent goes on: every test of the list is run and recorded exactly as it would be alone, the total is the sum,
+   and the run is reported failed exactly when some test has a failure *)
+Theorem C11_parent_continues : forall s,
+  o_items (run s) = map (run_test (s_all_sep s) 0) (s_tests s) /\
+  length (o_items (run s)) = length (s_tests s) /\
+  o_total (run s) = total_fails (o_items (run s)) /\
+  (s_tests s <> [] -> (o_failed (run s) = true <-> exists it, In it (o_items (run s)) /\ i_fails it <> [])).
+Proof. exact parent_continues. Qed.
+Print Assumptions C11_parent_continues.
+
+(* real children: whatever the program and the injected faults, the events handed to the loop are well-formed and the
+   loop never runs out of them (it ends by reaping, by a wait error or by giving up) *)
+Theorem C11_real_child_contained : forall count p inject, prog_ok p = true ->
+  forallb sout_ok (real_stream p inject) = true /\
+  map conc (real_stream p inject) = merge inject (child_events count p) /\
+  lr_end (parent_loop 0 (merge inject (child_events count p))) <> EndStreamOut.
+Proof. exact real_child_contained. Qed.
+Print Assumptions C11_real_child_contained.
 
 (* the model's run satisfies the property's oracle for every valid scenario *)
 Theorem C11_run_meets_spec : forall s, valid s = true -> spec s (run s) = true.
